@@ -762,6 +762,26 @@ def number_as_f64(n):
     return F64(z3.fpUnsignedToFP(z3.RNE(), bv, z3.Float64()) if n.kind == 'pos' else z3.fpSignedToFP(z3.RNE(), bv, z3.Float64()))
 @model('serde_json::Number::as_f64')
 def m_as_f64(ex, a): return some(number_as_f64(deref_all(a[0])))
+@model('serde_json::Number::is_f64')
+def m_is_f64(ex, a): return Bool(deref_all(a[0]).kind == 'float')
+@model('serde_json::Number::is_u64')
+def m_is_u64(ex, a): return Bool(deref_all(a[0]).kind == 'pos')
+@model('serde_json::Number::is_i64')
+def m_is_i64(ex, a):
+    n = deref_all(a[0])
+    if n.kind == 'float': return Bool(False)
+    if n.kind == 'neg': return Bool(True)
+    return Bool(z3.ULE(n.val.bv, z3.BitVecVal((1 << 63) - 1, 64)))
+@model('serde_json::Number::as_i64')
+def m_as_i64(ex, a):
+    n = deref_all(a[0])
+    if n.kind == 'float': return none()
+    if n.kind == 'neg': return some(Int(n.val.bv, 'i64'))
+    return some(Int(n.val.bv, 'i64')) if ex.branch_bool(Bool(z3.ULE(n.val.bv, z3.BitVecVal((1 << 63) - 1, 64)))) else none()
+@model('serde_json::Number::as_u64')
+def m_as_u64(ex, a):
+    n = deref_all(a[0])
+    return some(Int(n.val.bv, 'u64')) if n.kind == 'pos' else none()
 @model('serde_json::Number::from_f64')
 def m_from_f64(ex, a):
     f = a[0].f
